@@ -40,7 +40,7 @@ class MermaidNetwork:
         template = pkg_resources.read_text('pjplan.viz.mermaid.templates', 'network.html')
 
         return Template(template).substitute(
-            src=self.__src()
+            src=escape(self.__src(), quote=False)
         )
 
     def _repr_html_(self):
